@@ -51,9 +51,14 @@ def projects(draw: Any, with_star: bool = True, with_class_imports: bool = True)
     public: Dict[str, List[Tuple[str, str]]] = {}   # module -> [(name, kind)] names importable from it (own defs + re-imported names: chains)
     own_defs: Dict[str, List[str]] = {}
     must: Dict[str, List[str]] = {}
+    pending_must: List[Tuple[str, str, str]] = []   # (module, alias, target module): resolved once the target's definitions are known
     for mi, m in enumerate(layout):
         body: List[Dict[str, Any]] = []
         earlier = [x for x in layout[:mi] if not x.startswith(m + '.')]
+        # a module that a package imports at the end of its __init__ runs while that package is still being initialised: it does
+        # not import the package (what the package's attributes are at that moment is a matter of timing)
+        initialising = {pkg for pkg, _al, tgt in pending_must if m == tgt or m.startswith(tgt + '.')}
+        earlier = [x for x in earlier if x not in initialising]
         names_here: List[Tuple[str, str]] = []
         class_aliases: List[str] = []
         # imports
@@ -161,6 +166,33 @@ def projects(draw: Any, with_star: bool = True, with_class_imports: bool = True)
                 src = draw(st.sampled_from(cands))
                 body.append({'k': 'alias', 'name': 'al%d' % i, 'expr': src})
                 names_here.append(('al%d' % i, 'alias'))
+        # a package may import its own submodules at the end of its __init__ (everything it defines exists by then, so a submodule
+        # that imports names from the package still works), with or without an alias
+        if is_pkg(layout, m) and draw(st.booleans()) and not any(b['k'] == 'import' and b['text'].endswith('import *') for b in body):
+            # (not after a star import: it may already have bound the submodule's name to another module)
+            subs = [x for x in layout if x.startswith(m + '.')]
+            for _ in range(draw(st.integers(1, 2))):
+                tgt = draw(st.sampled_from(subs))
+                i = nxt()
+                rem = tgt[len(m) + 1:]
+                form = draw(st.sampled_from(['rel-as', 'rel-as', 'rel', 'abs-as', 'import-as']))
+                par, _, leaf = rem.rpartition('.')
+                if any(n == rem.split('.')[0] for n, _k in names_here):
+                    continue  # the package already binds that name to something else ("each name bound once per scope")
+                if form == 'rel-as':
+                    body.append({'k': 'import', 'text': 'from .%s import %s as t%d' % (par, leaf, i)})
+                    alias = 't%d' % i
+                elif form == 'rel':
+                    body.append({'k': 'import', 'text': 'from .%s import %s' % (par, leaf)})
+                    alias = leaf
+                elif form == 'abs-as':
+                    body.append({'k': 'import', 'text': 'from %s import %s as t%d' % (m + ('.' + par if par else ''), leaf, i)})
+                    alias = 't%d' % i
+                else:
+                    body.append({'k': 'import', 'text': 'import %s as t%d' % (tgt, i)})
+                    alias = 't%d' % i
+                names_here.append((alias, 'module'))
+                pending_must.append((m, alias, tgt))
         has_all = draw(st.integers(0, 3)) == 0
         own = [b['name'] for b in body if b['k'] in ('class', 'func', 'var')]
         allv = None
@@ -178,6 +210,10 @@ def projects(draw: Any, with_star: bool = True, with_class_imports: bool = True)
         for b in body:
             if b['k'] == 'class' and b.get('cmust'):
                 must[m + '.' + b['name']] = b['cmust']
+    for m, alias, tgt in pending_must:
+        if sum(1 for n, _k in [(b.get('name'), 0) for mm in mods if mm['name'] == m for b in mm['body']] if n == alias) == 0:
+            must.setdefault(m, []).append(alias)
+            must[m].extend('%s.%s' % (alias, x) for x in own_defs.get(tgt, []))
     return {'layout': layout, 'mods': mods, 'must': must}
 
 
